@@ -1020,11 +1020,8 @@ func extFreeze(e *Exec, _ *frame, _ token.Pos, _ *ssa.Function, args []Value) Va
 }
 
 func (e *Exec) noteFrozenWrite(fr *frame, instr ssa.Instruction) {
-	pos := "?"
-	if instr != nil {
-		pos = fr.fn.String() + "@" + e.posStr(instr.Pos())
-	}
-	e.assertProp(e.ts.False, "write to frozen (shared) object at "+pos, pos)
+	pos := e.where()
+	e.softViolation("write to an object reachable from the shared schema (data race between goroutines sharing the Schema)", pos)
 }
 
 // NondetPick[T](name, cands []T) T: a symbolic selection among the candidates, merged with
